@@ -60,7 +60,8 @@ static void chk_make_table(rng_t *r, int k) {
   int nrows = k + rng_int(r, 0, 5), r0 = rng_int(r, 0, nrows - k);
   int c0 = rng_chance(r, 1, 2) ? 0 : rng_int(r, 0, ncols - 1);
   rm_t *Mv = gen_mat(r, nrows, ncols, PAT_DENSE);
-  opnd_t *M = opnd_make(r, Mv, PL_OWN);
+  /* the source is a view with foreign bits behind its last column half of the time: they must not reach the table */
+  opnd_t *M = opnd_make(r, Mv, rng_chance(r, 1, 2) ? PL_OWN : (rng_chance(r, 1, 2) ? PL_WIN_EVEN : PL_WIN_ODD));
   mzd_t *T = mzd_init(1 << k, ncols);
   rci_t *L = calloc((size_t)1 << k, sizeof(rci_t));
   /* dirty table: make_table must define every row it hands out */
@@ -89,7 +90,7 @@ static void chk_make_table(rng_t *r, int k) {
       break;
     }
   }
-  if (mzd_padding_bits(T)) fail("mzd_make_table", "table has non-zero padding bits");
+  if (mzd_padding_bits(T)) fail("mzd_make_table", "k=%d r=%d c=%d ncols=%d source %s: table has non-zero bits beyond its last column", k, r0, c0, ncols, opnd_cls(M));
   free(L);
   mzd_free(T);
   opnd_free(M);
